@@ -231,15 +231,15 @@ PROPS = {
         level_text="Verus proves on the extracted real code: div_2x1_mg10 (MG10 Thm 2), div_3x2_mg10 (Thm 3), reciprocal_2_mg10 (Alg. 6), reciprocal_ref, div_nx1_normalized, div_nx2_normalized and "
                    "the complete un-normalised Knuth D div_nxm (estimate, multiply-subtract, add-back, forced digit, shift==0 shortcut, q_high, final shuffle), the un-normalised n-by-1 / n-by-2 drivers div_nx1 / div_nx2 "
                    "(on-the-fly normalisation shift) and the `div` dispatcher (zero trimming through re-borrowed sub-slices, n = 0, n < d, 1-by-1, dispatch, lifting back to the padded slices) against n = q*d + r, r < d over limb values",
-        level_note="ASSUMED: reciprocal_mg10 (table-seeded Newton iteration over Wrapping<u64>; its contract 'equals reciprocal_ref' is assumed, the lookup table is pinned by unit recip_table), "
+        level_note="ASSUMED: reciprocal_mg10 (table-seeded Newton iteration over Wrapping<u64>; its contract 'equals reciprocal_ref' is assumed, the lookup table is pinned by unit recip_table; BOUNDED stand-in: Kani c14_reciprocal_rows_* compares it with reciprocal_ref on 7 concrete divisors at the edges and the middle of each of the table rows 0..=254 - 1785 divisors, never counted as proved), "
                    "div_nxm_normalized (public, not called by div) not covered; Iterator::rposition (N14 wrapper; Kani on slices <= 8) "
                    "one fact about u64::leading_zeros (lemma_lz_facts, Kani full domain), Option::copied, slice::fill, u128::overflowing_sub specs",
         technique="deductive contracts (Verus, all slice lengths and limb values) on the division kernels",
         units=["kernels", "div_small", "knuth", "divd", "recip_table"],
-        kani=dict(features=None, quick=hs("c14"), thorough=hs("c14"), bounds="leading_zeros fact: all u64 (loop-free, complete)"),
+        kani=dict(features=None, quick=hs("c14"), thorough=hs("c14"), bounds="leading_zeros fact: all u64 (loop-free, complete); reciprocal_mg10: 7 concrete divisors per table row 0..=254 (BOUNDED)"),
         explanation="each kernel's documented conditions of use are its requires; its ensures is the Euclidean identity in lvr() terms with the in-place layout",
         trusted=COMMON_TRUST,
-        not_decided=["body of reciprocal_mg10 beyond its lookup table", "div_nxm_normalized"],
+        not_decided=["body of reciprocal_mg10 beyond its lookup table and the concrete row-edge grid (bounded)", "div_nxm_normalized"],
     ),
     "C03": dict(
         level="proof",
@@ -249,7 +249,7 @@ PROPS = {
                    "'zero divisor panics' is a Kani should_panic obligation per width (c03p), 'non-zero divisor never panics' is the Verus no-panic obligation under d != 0",
         technique="deductive contracts (Verus, all widths) + Kani should_panic/None harnesses per width",
         units=["core", "basics", "add", "mul", "kernels", "addnx1", "addmul", "addmul_n", "div_small", "knuth", "divd", "divw", "forward"],
-        kani=dict(features=None, quick=hs("c03p", None, r"_w8_|divrem_w8"), thorough=hs("c03p"), bounds="widths 1, 64, 65 for the zero-divisor clauses; 8-bit exhaustive division"),
+        kani=dict(features=None, quick=hs("c03p", None, r"_w8_|divrem_w8") + hs("c14", r"reciprocal_rows"), thorough=hs("c03p") + hs("c14", r"reciprocal_rows"), bounds="widths 1, 64, 65 for the zero-divisor clauses; 8-bit exhaustive division; reciprocal_mg10 on a concrete row-edge grid (bounded)"),
         explanation="the property's sentences are postconditions of the Uint methods; r < d and n = q*d + r give q = floor(n/d) by lemma_euclid",
         trusted=COMMON_TRUST,
         not_decided=["/ and % operator impls (forwarding only)"],
